@@ -29,6 +29,10 @@ package cache
 //@   modifies Cache.preDepth
 //@   ensures [depth] c.preDepth == old(c.preDepth) - 1
 
+//@ -- other mutexes are not touched
+//@ pred lockFrame(c) := forall m: Ref :: m != mutexAddr(c.mu) ==> (heldAt(m) <==> old(heldAt(m)))
+//@ -- timers of other caches are not touched (a new timer is a fresh object)
+//@ pred timerFrame(c) := forall t: *time.Timer :: allocated(t) && t != old(c.timer) ==> (t.armed <==> old(t.armed))
 //@ pred removedCleaned(c) := forall k2: k :: old(k2 in c.entries) && !(k2 in c.entries) ==> c.pruneFn == nil || c.cleanCount[k2] > old(c.cleanCount[k2])
 //@ pred failedKept(c) := forall k2: k :: c.failCount[k2] > old(c.failCount[k2]) && c.cleanCount[k2] == old(c.cleanCount[k2]) ==> (k2 in c.entries)
 //@ pred nothingAdded(c) := forall k2: k :: (k2 in c.entries) ==> old(k2 in c.entries)
@@ -38,6 +42,8 @@ package cache
 //@   props C20 C08
 //@   nilrecv
 //@   requires c != nil ==> cacheInv(c) && !held(c.mu)
+//@   ensures [lock-frame] c != nil ==> lockFrame(c)
+//@   ensures [timer-frame] c != nil ==> timerFrame(c)
 //@   ensures [lock-released] c != nil ==> !held(c.mu)
 //@   ensures [inv] c != nil ==> cacheInv(c)
 //@   ensures [cleanup-before-removal] c != nil ==> removedCleaned(c)
@@ -70,16 +76,20 @@ package cache
 //@   props C20
 //@   nilrecv
 //@   requires c != nil ==> cacheInv(c) && !held(c.mu)
+//@   ensures [lock-frame] c != nil ==> lockFrame(c)
+//@   ensures [timer-frame] c != nil ==> timerFrame(c)
 //@   ensures [lock-released] c != nil ==> !held(c.mu)
 //@   ensures [inv] c != nil ==> cacheInv(c)
 //@   ensures [found] c != nil && old(key in c.entries) ==> err == nil && val == old(c.entries[key].value) && c.entries[key].used >= old(clock())
 //@   ensures [missing] c == nil || !old(key in c.entries) ==> err != nil
-//@   ensures [entries-same] c != nil ==> forall k2: k :: ((k2 in c.entries) <==> old(k2 in c.entries)) && c.entries[k2] == old(c.entries[k2])
+//@   ensures [entries-same] c != nil ==> forall k2: k :: ((k2 in c.entries) <==> old(k2 in c.entries)) && c.entries[k2] == old(c.entries[k2]) && (old(k2 in c.entries) ==> c.entries[k2].value == old(c.entries[k2].value))
 
 //@ func (c *Cache) IsEmpty() (empty bool)
 //@   props C20
 //@   nilrecv
 //@   requires c != nil ==> cacheInv(c) && !held(c.mu)
+//@   ensures [lock-frame] c != nil ==> lockFrame(c)
+//@   ensures [timer-frame] c != nil ==> timerFrame(c)
 //@   ensures [lock-released] c != nil ==> !held(c.mu)
 //@   ensures [exact] c != nil ==> (empty <==> len(c.entries) == 0)
 
@@ -87,10 +97,12 @@ package cache
 //@   props C20 C08
 //@   nilrecv
 //@   requires c != nil ==> cacheInv(c) && !held(c.mu)
+//@   ensures [lock-frame] c != nil ==> lockFrame(c)
+//@   ensures [timer-frame] c != nil ==> timerFrame(c)
 //@   ensures [lock-released] c != nil ==> !held(c.mu)
 //@   ensures [inv] c != nil ==> cacheInv(c)
 //@   ensures [stored] c != nil ==> (key in c.entries) && c.entries[key].value == val && c.entries[key].used >= old(clock())
-//@   ensures [others-untouched] c != nil ==> forall k2: k :: k2 != key ==> ((k2 in c.entries) <==> old(k2 in c.entries)) && c.entries[k2] == old(c.entries[k2])
+//@   ensures [others-untouched] c != nil ==> forall k2: k :: k2 != key ==> ((k2 in c.entries) <==> old(k2 in c.entries)) && c.entries[k2] == old(c.entries[k2]) && (old(k2 in c.entries) ==> c.entries[k2].value == old(c.entries[k2].value))
 
 //@ pred agedOut(c) := forall k2: k :: old(k2 in c.entries) && !(k2 in c.entries) ==> old(c.entries[k2].used) + c.minAge < clock()
 
@@ -128,6 +140,8 @@ package cache
 //@   props C20
 //@   nilrecv
 //@   requires c != nil ==> cacheInv(c) && !held(c.mu)
+//@   ensures [lock-frame] c != nil ==> lockFrame(c)
+//@   ensures [timer-frame] c != nil ==> timerFrame(c)
 //@   ensures [lock-released] c != nil ==> !held(c.mu)
 //@   ensures [listed-present] c != nil ==> err == nil && forall p: int :: 0 <= p && p < len(keys) ==> (keys[p] in c.entries)
 //@   ensures [complete] c != nil ==> len(keys) == len(c.entries)
